@@ -356,7 +356,7 @@ Definition guardA (s : store) (x : name) (ix : list expr) (e : expr) : bool :=
   | Some vs =>
       memloc (x, vs) L &&
       forallb (fun st : bool * expr =>
-                 match plug acts (snd st) (ELit 0) with
+                 match plug acts (snd st) (lhs_expr x ix) with
                  | Some (r, _) =>
                      match ref_loc s r with
                      | Some l => memloc l L && (expr_eqb r (lhs_expr x ix) || negb (loc_eqb l (x, vs)))
@@ -404,6 +404,7 @@ Definition first_sign_ok (lhs : expr) (ts : list (bool * expr)) : bool :=
 
 Fixpoint safe_stmt (E : list name) (s : stmt) : bool :=
   let go := (fix go (l : list stmt) : bool := match l with [] => true | x :: r => safe_stmt E x && go r end) in
+  stmt_act acts s &&       (* no passive statement: those are hoisted in front (documented limitation #1458) *)
   match s with
   | SAssign x ix e =>
       memn x acts && negb (memn x LV) && pure_l E ix &&
